@@ -386,12 +386,55 @@ func opsFor(round, k int, jt, pt, tt reflect.Type) []c09Op {
 			b, e2 := json.Append(nil, v, json.SortMapKeys)
 			return fmt.Sprintf("%s|%v|%v", b, err, e2)
 		}},
+		{"json.Encoder(indentation switched on, then off; the writer makes library calls while it holds the bytes; result held)", func() string {
+			// pooled encode buffers are never visible to two callers at once: what the writer was handed stays what it is
+			// while this goroutine and another one go on encoding
+			w := &c09Writer{}
+			e := json.NewEncoder(w)
+			var ref bytes.Buffer
+			r := stdjson.NewEncoder(&ref)
+			val := map[string]any{"k": k, "s": strings.Repeat("v", 300+k%100)}
+			for _, ind := range []string{"  ", "", ""} {
+				e.SetIndent("", ind)
+				r.SetIndent("", ind)
+				if err := e.Encode(val); err != nil {
+					return err.Error()
+				}
+				r.Encode(val)
+			}
+			if w.bad != "" {
+				return w.bad
+			}
+			if w.out.String() != ref.String() {
+				return "the writer got other bytes than encoding/json's"
+			}
+			return "stable"
+		}},
 		{"iso8601+ascii", func() string {
 			ts := "2021-03-25T21:36:" + fmt.Sprintf("%02d", k%60) + ".5Z"
 			t, err := iso8601.Parse(ts)
 			return fmt.Sprintf("%v|%v|%v|%v|%v", t.UnixNano(), err, iso8601.Valid(ts, iso8601.Strict), ascii.ValidString(ts), ascii.EqualFoldString(ts, strings.ToLower(ts)))
 		}},
 	}
+}
+
+// c09Writer makes a few library calls of its own while it holds the bytes it was handed, and looks at them again
+type c09Writer struct {
+	bad string
+	out bytes.Buffer
+}
+
+func (w *c09Writer) Write(p []byte) (int, error) {
+	snap := string(p)
+	other := strings.Repeat("#", max(len(p)-8, 0))
+	json.Marshal(other)
+	json.Marshal([]string{other, "x"})
+	runtime.Gosched()
+	if string(p) != snap && w.bad == "" {
+		w.bad = fmt.Sprintf("%d bytes handed to the writer changed while it held them: %s became %s", len(snap), clipS(snap), clipS(string(p)))
+	}
+	w.out.WriteString(snap)
+	return len(p), nil
 }
 
 type c09Narrow struct {
